@@ -69,8 +69,9 @@ def csb_body(n, inf_upper):
         s = env.real("s", 1e-3, VMAX)
         lb = [env.real("lb%d" % i, 0, VMAX) for i in range(n)]
         ub = [(float("inf") if (inf_upper and i == n - 1) else env.real("ub%d" % i, 0, VMAX)) for i in range(n)]
+        unbounded = [bool(inf_upper and i == n - 1) for i in range(n)]  # (not `isinstance(ub[i], float)`: every input is a float in the concrete replay)
         for i in range(n):
-            if not isinstance(ub[i], float):
+            if not unbounded[i]:
                 env.assume(env.b(lb[i] <= ub[i]), "lb <= ub")
         if env.symbolic:
             snp = shim.ShimNP()
@@ -93,7 +94,7 @@ def csb_body(n, inf_upper):
         for i in range(n):
             tot = tot + out[i]
             env.claim("within_lower_bound_%d" % i, env.ge(out[i], lb[i], 0), key="bounds")
-            if not isinstance(ub[i], float):
+            if not unbounded[i]:
                 env.claim("within_upper_bound_%d" % i, env.le(out[i], ub[i], 0), key="bounds")
         d = tot - s
         env.claim("meets_total", env.le(d, 1e-8 + 1e-5 * s, 0) & env.ge(d, -(1e-8 + 1e-5 * s), 0), key="total")
@@ -101,7 +102,7 @@ def csb_body(n, inf_upper):
         sx = 0.0
         for v in x:
             sx = sx + v
-        ok = env.all([env.ge(x[i], lb[i], 0) for i in range(n)] + [env.le(x[i], ub[i], 0) for i in range(n) if not isinstance(ub[i], float)] + [env.eq(sx, s, 0)])
+        ok = env.all([env.ge(x[i], lb[i], 0) for i in range(n)] + [env.le(x[i], ub[i], 0) for i in range(n) if not unbounded[i]] + [env.eq(sx, s, 0)])
         env.claim("satisfying_proposal_returned_unchanged", env.all([env.eq(out[i], x[i]) for i in range(n)]), under=ok.exact, key="unchanged")
 
     return body
